@@ -1,1 +1,291 @@
-/-! # C14 — property theorems (stub: not built yet) -/
+import KM.Lemmas.RateLimit
+import KM.Gen.C14
+/-! # C14 — password and one-time-code guessing is throttled
+
+Property theorems only.
+
+* `runBucket`/`allowStep` mirror `golang.org/x/time/rate` `Limiter.AllowN(t, 1)` over exact scaled
+  integers; `passwordAttempt` is "limiter first, backend only when admitted" — that this is the
+  shape of both entry points is `c14_before_backend` (table regenerated from the source).
+* `step` mirrors `validateUserTOTP` (repaired), `stepOld` the function as found; `monStep` is the
+  property as a monitor over the observable history (used by the `judge` too).
+
+Times are nanoseconds; rates are milli-events per second; one token is `tokenUnit` = 10^12. -/
+namespace KM.RateLimit
+
+/-! ## password attempts: the global token bucket -/
+
+/-- **Bucket**: for every limiter configuration (rate ≤ 10^9/s), every limiter state within the
+invariant and every non-decreasing list of request times t₁ ≤ t₂ ≤ … ≤ t_last, the number of
+admitted requests is at most burst + ⌈rate · (t_last − t₁)⌉. -/
+theorem c14_bucket (p : Limit) (b : Bucket) (t1 : Int) (ts : List Int)
+    (hrate : (p.rateMilli : Int) ≤ tokenUnit) (hb : TokOK p b) (hts : NonDecr t1 ts) :
+    ((runBucket p b (t1 :: ts)).2 : Int) ≤ bucketBound p (lastOr t1 ts - t1) := by
+  have h1 := run_bound p (t1 :: ts) b t1 hb.1 ⟨Int.le_refl _, hts⟩
+  have h2 := (tokOK_run (p := p) (t1 :: ts) hb).2
+  simp only [lastOr] at h1
+  unfold bucketBound ceilDiv
+  rw [Int.mul_comm (p.rateMilli : Int)]
+  generalize (lastOr t1 ts - t1) * (p.rateMilli : Int) = X at h1 ⊢
+  generalize (runBucket p b (t1 :: ts)).1.tokens = T at h1 h2
+  generalize ((runBucket p b (t1 :: ts)).2 : Int) = c at h1 ⊢
+  unfold tokenUnit at *
+  omega
+
+/-- a limiter as built by `rate.NewLimiter` is within the invariant, whatever its `last` -/
+theorem c14_bucket_new (p : Limit) (t0 t1 : Int) (ts : List Int)
+    (hrate : (p.rateMilli : Int) ≤ tokenUnit) (hts : NonDecr t1 ts) :
+    ((runBucket p (Bucket.new p t0) (t1 :: ts)).2 : Int) ≤ bucketBound p (lastOr t1 ts - t1) :=
+  c14_bucket p _ t1 ts hrate (tokOK_new p t0) hts
+
+/-- **Any window**: after an arbitrary earlier history `pre` (any times, in any order) the bound
+holds for the requests of every later non-decreasing window. -/
+theorem c14_bucket_window (p : Limit) (t0 : Int) (pre : List Int) (t1 : Int) (ts : List Int)
+    (hrate : (p.rateMilli : Int) ≤ tokenUnit) (hts : NonDecr t1 ts) :
+    ((runBucket p (Bucket.new p t0) (pre ++ t1 :: ts)).2 : Int)
+      ≤ (runBucket p (Bucket.new p t0) pre).2 + bucketBound p (lastOr t1 ts - t1) := by
+  have h := c14_bucket p (runBucket p (Bucket.new p t0) pre).1 t1 ts hrate
+    (tokOK_run pre (tokOK_new p t0)) hts
+  rw [(runBucket_append p pre (Bucket.new p t0) (t1 :: ts)).1]
+  push_cast
+  omega
+
+/-- **Backend calls**: with the limiter consulted first (`passwordAttempt`), the password backend is
+reached at most burst + ⌈rate·Δ⌉ times; every other attempt is answered `tooMany` (429) without a
+lookup. -/
+theorem c14_backend_bound (p : Limit) (t0 t1 : Int) (ts : List Int)
+    (hrate : (p.rateMilli : Int) ≤ tokenUnit) (hts : NonDecr t1 ts) :
+    ((((pwRun p (Bucket.new p t0) (t1 :: ts)).filter (· = PwResp.backend)).length : Nat) : Int)
+        ≤ bucketBound p (lastOr t1 ts - t1) ∧
+    ∀ r ∈ pwRun p (Bucket.new p t0) (t1 :: ts), r = .backend ∨ r = .tooMany := by
+  constructor
+  · rw [pwRun_backend_count]
+    exact c14_bucket_new p t0 t1 ts hrate hts
+  · intro r _
+    cases r
+    · exact Or.inr rfl
+    · exact Or.inl rfl
+
+/-- non-vacuity and sharpness: burst 10, 1/s — 13 requests in the same instant admit exactly 10;
+one second later exactly one more. -/
+example : (runBucket ⟨1000, 10⟩ (Bucket.new ⟨1000, 10⟩ 0) (List.replicate 13 5000000000)).2 = 10 ∧
+    bucketBound ⟨1000, 10⟩ 0 = 10 := by decide
+example : (runBucket ⟨1000, 10⟩ (Bucket.new ⟨1000, 10⟩ 0)
+    (List.replicate 13 5000000000 ++ [6000000000, 6000000000])).2 = 11 ∧
+    bucketBound ⟨1000, 10⟩ 1000000000 = 11 := by decide
+example : NonDecr 5 [5, 6, 6, 9] := ⟨by decide, by decide, by decide, by decide, trivial⟩
+
+/-! ## tables regenerated from the source -/
+
+open KM.Gen.C14 in
+/-- **Limiter before backend** (regenerated table): the only caller of `PasswordAuthenticate` is
+`checkUserPassword`; the functions calling `checkUserPassword` are exactly `checkAuth` (basic-auth
+branch) and `loginHandler`, and in both every such call follows, in the same statement list, an
+`if err := state.checkPasswordAttemptLimit(…); err != nil { …; return }`; `checkPasswordAttemptLimit`
+is `if !limiter.Allow() { writeFailureResponse(…, 429, …); …; return err }; return nil`. -/
+theorem c14_before_backend :
+    backendCallers.all (fun c => c.2 == GuardClass.guarded) = true ∧
+    backendCallers.map (·.1) = ["checkAuth".toList, "loginHandler".toList] ∧
+    passwordAuthenticateCallers = ["checkUserPassword".toList] ∧
+    limitCheck = { stmtCount := 2, condIsNotAllow := true, refusalStatus := some 429,
+                   refusalReturnsError := true, refusalCallsBackend := false,
+                   passReturnsNil := true } := by
+  decide
+
+open KM.Gen.C14 in
+/-- **Limiter configuration** (regenerated table): built once from the two configuration fields
+after defaults, file and clamps have been applied; never reassigned or re-tuned; whatever the
+file says, burst ≥ 10 and rate ≥ 1/s. -/
+theorem c14_limiter_config :
+    limiterConfig.builtFromConfigFields = true ∧ limiterConfig.orderOK = true ∧
+    limiterConfig.assignSites = 1 ∧ limiterConfig.mutatorCalls = 0 ∧
+    limiterConfig.defaultBurst = some 100 ∧ limiterConfig.defaultRateMilli = some 10000 ∧
+    (∀ burst : Nat, ∃ b, clamp limiterConfig.clampBurst burst = some b ∧ 10 ≤ b ∧ burst ≤ b) ∧
+    (∀ rate : Nat, ∃ r, clamp limiterConfig.clampRateMilli rate = some r ∧ 1000 ≤ r ∧ rate ≤ r) := by
+  refine ⟨by decide, by decide, by decide, by decide, by decide, by decide, ?_, ?_⟩
+  · intro burst
+    refine ⟨if burst < 10 then 10 else burst, rfl, ?_, ?_⟩ <;> split <;> omega
+  · intro rate
+    refine ⟨if rate < 1000 then 1000 else rate, rfl, ?_, ?_⟩ <;> split <;> omega
+
+open KM.Gen.C14 in
+/-- **validateUserTOTP as read** (regenerated table): the statement order the model follows —
+spacing test and `lastCheckTime` update under the mutex, then lock-out test, 24 h reset, replay
+guard, the device loop (the only `totp.Validate` of an authentication path), `failCount++`, the
+lock-out update, `lastFailTime`; and the constants are the ones declared (2 s, 24 h, every 5th). -/
+theorem c14_totp_source :
+    totpOrder = [.loadProfile, .loadErr, .lock, .readLimit, .spacingTest, .setLastCheck, .storeLimit,
+      .unlock, .lockoutTest, .resetTest, .replayTest, .deviceLoop, .incFail, .lockoutUpdate,
+      .setLastFail, .lock, .storeLimit, .unlock, .retFalse] ∧
+    spacingSecsUsed = minSecsBetweenTOTPValidations ∧ 2 ≤ spacingSecsUsed ∧
+    resetSecsUsed = numHoursForLocalTOTPRateLimitReset * 3600 ∧
+    everyUsed = numFailedTOTPChecksForTimeoutIncrease ∧ 0 < everyUsed ∧ totpPeriod = 30 ∧
+    totpValidateSites = ["validateNewTOTP".toList, "validateUserTOTP".toList] ∧
+    validateUserTOTPCallers = ["internalTOTPAuthHandler".toList, "verifyTOTPHandler".toList] := by
+  decide
+
+/-- does the statement under `failCount % every == 0` put the expiry into the future, further for
+every further block of failures? -/
+def escalates : LockoutUpdate → Bool
+  | .nowPlusPerBlock s => decide (0 < s)
+  | _ => false
+
+/-- **The lock-out is assigned** (regenerated table): the result of `.Add(…)` is stored, based on
+`time.Now()` and scaled by the number of failure blocks (1 h per block). -/
+theorem c14_lockout_assigned :
+    escalates KM.Gen.C14.lockoutUpdate = true ∧ lockoutSecs KM.Gen.C14.lockoutUpdate = 3600 := by
+  decide
+
+/-! ## one-time codes: the per-user limiter -/
+
+/-- **Spacing** (every state, every sequence of attempts by any number of users, in any time
+order): two attempts of the same user that get past the 2-second gate — in particular two
+*evaluations* of that user's code — are at least `spacingNs` apart. -/
+theorem c14_spacing_gate {U : Type} [DecidableEq U] (m : U → Totp) (ops : List (U × Attempt)) :
+    (traceM step m ops).Pairwise (fun e1 e2 => e1.user = e2.user → e1.out ≠ .spaced →
+      e2.out ≠ .spaced → e1.now + spacingNs ≤ e2.now) := by
+  induction ops generalizing m with
+  | nil => exact List.Pairwise.nil
+  | cons op ops ih =>
+    simp only [traceM]
+    refine List.Pairwise.cons ?_ (ih _)
+    intro e he hu h1 h2
+    have hg := trace_gate lockNext ops _ e he h2
+    simp only [stepM] at hu h1 hg ⊢
+    rw [← hu] at hg
+    simp only [upd, if_true] at hg
+    have := step_lastCheck_of_pass h1
+    unfold step at hg
+    omega
+
+theorem c14_spacing {U : Type} [DecidableEq U] (m : U → Totp) (ops : List (U × Attempt)) :
+    (traceM step m ops).Pairwise (fun e1 e2 => e1.user = e2.user → e1.out.evaluated = true →
+      e2.out.evaluated = true → e1.now + spacingNs ≤ e2.now) :=
+  (c14_spacing_gate m ops).imp
+    (fun h hu h1 h2 => h hu (evaluated_ne_spaced h1) (evaluated_ne_spaced h2))
+
+/-- the spacing is the two seconds of the property -/
+theorem c14_spacing_value : spacingNs = 2 * sec := by decide
+
+/-- **Lock-out** (all users start with no limiter entry; every sequence of fewer than 2^32
+attempts — `failCount` is a uint32): the observable history is accepted by the monitor
+`monStep`, i.e. for every user (i) evaluations are ≥ 2 s apart and (ii) once that user's
+count of consecutive evaluated failures (cleared by a success, restarted after 24 h without a
+failure) reaches `every`·k, no evaluation of that user's code happens before
+(time of that failure) + k · `lockStepNs`. -/
+theorem c14_lockout {U : Type} [DecidableEq U] (ops : List (U × Attempt))
+    (hlen : ops.length < 4294967296) :
+    monAll (fun _ => Mon.init) (traceM step (fun _ => Totp.init) ops) = true :=
+  monAll_of_rel ops _ _ (fun _ => rel_init) (fun _ => by simp [Mon.init]; omega)
+
+/-- **k-th lock-out**: the failure that brings `failCount` to `every`·k (k ≥ 1) sets the expiry to
+now + k·(lock step): strictly in the future, and one step further for every further block. -/
+theorem c14_lockout_kth (s : Totp) (a : Attempt) (k : Nat) (hev : 0 < every)
+    (hr : (step s a).2 = .rejected) (hfc : (step s a).1.failCount = every * k) :
+    (step s a).1.lockoutExp = a.now + (k : Int) * lockStepNs := by
+  unfold step at hr hfc ⊢
+  rcases stepWith_cases lockNext s a with ⟨_, h⟩ | ⟨_, _, h⟩ | ⟨_, _, _, h⟩ | ⟨_, _, _, _, h⟩ |
+      ⟨_, _, _, _, h⟩ <;> rw [h] at hr hfc ⊢ <;> try (cases hr; done)
+  simp only at hfc ⊢
+  unfold lockNext
+  rw [hfc]
+  simp only [Nat.mul_mod_right, if_true]
+  rw [Nat.mul_div_cancel_left k hev]
+
+/-- **Inside a lock-out nothing is evaluated**: the call returns false before the code is looked
+at, and neither the failure count nor the expiry move — for wrong and for right codes alike. -/
+theorem c14_locked_no_eval (s : Totp) (a : Attempt) (h : a.now < s.lockoutExp) :
+    (step s a).2.evaluated = false ∧ (step s a).1.failCount = s.failCount ∧
+    (step s a).1.lockoutExp = s.lockoutExp ∧ (step s a).1.lastFail = s.lastFail := by
+  unfold step
+  rcases stepWith_cases lockNext s a with ⟨_, e⟩ | ⟨_, _, e⟩ | ⟨_, _, _, e⟩ | ⟨_, _, _, _, e⟩ |
+      ⟨_, _, _, _, e⟩ <;> rw [e]
+  · exact ⟨rfl, rfl, rfl, rfl⟩
+  · exact ⟨rfl, rfl, rfl, rfl⟩
+  · omega
+  · omega
+  · omega
+
+/-- **Success resets**: an accepted code clears the failure count and ends any lock-out; the next
+evaluated failure counts as the first. Acceptance needs a right code outside spacing, lock-out and
+replay guard. -/
+theorem c14_success_resets (s : Totp) (a : Attempt) (h : (step s a).2 = .accepted) :
+    (step s a).1.failCount = 0 ∧ (step s a).1.lockoutExp = a.now ∧
+    (step s a).1.lastSuccCounter = a.counter ∧
+    a.correct = true ∧ s.lastCheck + spacingNs ≤ a.now ∧ s.lockoutExp ≤ a.now ∧
+    s.lastSuccCounter ≠ a.counter ∧
+    ∀ b : Attempt, (step (step s a).1 b).2 = .rejected → (step (step s a).1 b).1.failCount = 1 := by
+  unfold step at h ⊢
+  rcases stepWith_cases lockNext s a with ⟨_, e⟩ | ⟨_, _, e⟩ | ⟨_, _, _, e⟩ | ⟨h1, h2, h3, h4, e⟩ |
+      ⟨_, _, _, _, e⟩ <;> rw [e] at h ⊢ <;> try (cases h; done)
+  refine ⟨rfl, rfl, rfl, h4, h1, h2, h3, ?_⟩
+  intro b hb
+  rcases stepWith_cases lockNext ⟨a.now, 0, s.lastFail, a.now, a.counter⟩ b with ⟨_, e'⟩ |
+      ⟨_, _, e'⟩ | ⟨_, _, _, e'⟩ | ⟨_, _, _, _, e'⟩ | ⟨_, _, _, _, e'⟩ <;> rw [e'] at hb ⊢ <;>
+      try (cases hb; done)
+  show fcNext _ _ = 1
+  unfold fcNext fcBase
+  simp only []
+  split <;> rfl
+
+/-- **Replay guard**: once a code has been accepted in a 30-second period, no attempt carrying the
+same period counter is accepted, whatever else happens in between, until another period's code
+is accepted. (Its cross-period weakness is property C05's subject.) -/
+theorem c14_replay_guard (s : Totp) (a : Attempt) (h : s.lastSuccCounter = a.counter) :
+    (step s a).2 ≠ .accepted ∧ (step s a).1.lastSuccCounter = s.lastSuccCounter := by
+  unfold step
+  rcases stepWith_cases lockNext s a with ⟨_, e⟩ | ⟨_, _, e⟩ | ⟨_, _, _, e⟩ | ⟨_, _, h3, _, e⟩ |
+      ⟨_, _, h3, _, e⟩ <;> rw [e]
+  · exact ⟨by simp, rfl⟩
+  · exact ⟨by simp, rfl⟩
+  · exact ⟨by simp, rfl⟩
+  · exact absurd h h3
+  · exact absurd h h3
+
+/-! ### the function as found -/
+
+/-- twelve wrong codes three seconds apart, then the right one -/
+def unfixedOps : List (Unit × Attempt) :=
+  (List.range 12).map (fun (i : Nat) => ((), ⟨1000000000 * sec + (3 * (i : Int)) * sec, 33333333, false⟩)) ++
+    [((), ⟨1000000000 * sec + 36 * sec, 33333334, true⟩)]
+
+/-- **As found** (`lockoutExpirationTime.Add(…)` with the result discarded): all twelve wrong codes
+are evaluated, `failCount` reaches 12, the expiry is never in the future, the thirteenth attempt is
+evaluated and accepted — and the monitor rejects that history, while it accepts the repaired one,
+where the sixth attempt is already refused. -/
+theorem c14_unfixed_counterexample :
+    (traceM stepOld (fun _ => Totp.init) unfixedOps).map (·.out) =
+      List.replicate 12 Outcome.rejected ++ [Outcome.accepted] ∧
+    (finalM stepOld (fun _ => Totp.init) (unfixedOps.take 12) ()).failCount = 12 ∧
+    (finalM stepOld (fun _ => Totp.init) (unfixedOps.take 12) ()).lockoutExp ≤ 1000000000 * sec ∧
+    monAll (fun _ => Mon.init) (traceM stepOld (fun _ => Totp.init) unfixedOps) = false ∧
+    monAll (fun _ => Mon.init) (traceM step (fun _ => Totp.init) unfixedOps) = true ∧
+    ((traceM step (fun _ => Totp.init) unfixedOps).map (·.out)).drop 4 =
+      [Outcome.rejected] ++ List.replicate 8 Outcome.locked := by
+  decide
+
+/-- assigning the result onto the *previous* expiry is not enough either: four failures, 23 hours
+of silence, then ten more failures three seconds apart are all evaluated, because the expiry is
+extended from a base that lies a day back. -/
+def lockNextExtendPrev (s : Totp) (now : Int) : Int :=
+  if fcNext s now % every = 0 then lockBase s now + lockStepNs else lockBase s now
+
+def extendPrevOps : List (Unit × Attempt) :=
+  (List.range 4).map (fun (i : Nat) => ((), ⟨1000000000 * sec + (3 * (i : Int)) * sec, 1, false⟩)) ++
+  (List.range 10).map (fun (i : Nat) => ((), ⟨1000000000 * sec + 82800 * sec + (3 * (i : Int)) * sec, 1, false⟩))
+
+theorem c14_extend_previous_counterexample :
+    (traceM (stepWith lockNextExtendPrev) (fun _ => Totp.init) extendPrevOps).map (·.out) =
+      List.replicate 14 Outcome.rejected ∧
+    monAll (fun _ => Mon.init)
+      (traceM (stepWith lockNextExtendPrev) (fun _ => Totp.init) extendPrevOps) = false := by
+  decide
+
+/-- non-vacuity: a right code from a fresh state is accepted; five wrong codes lock for an hour -/
+example : (step Totp.init ⟨1000000000 * sec, 33333333, true⟩).2 = .accepted := by decide
+example : ((traceM step (fun _ => Totp.init)
+    ((List.range 6).map (fun (i : Nat) => ((), ⟨1000000000 * sec + (3 * (i : Int)) * sec, 33333333, false⟩)))).map (·.out))
+    = List.replicate 5 Outcome.rejected ++ [Outcome.locked] := by decide
+example : every = 5 ∧ lockStepNs = 3600 * sec := by decide
+
+end KM.RateLimit
